@@ -31,6 +31,18 @@ static ARENA_INIT: AtomicUsize = AtomicUsize::new(0);
 /// 0 = free, 1 = leased to a thread (or abandoned for good)
 static SLOTS: [AtomicUsize; MAX_REGIONS] = [const { AtomicUsize::new(0) }; MAX_REGIONS];
 static SLOT_HINT: AtomicUsize = AtomicUsize::new(0);
+static CLAIMED: AtomicUsize = AtomicUsize::new(0);
+static ABANDONED_LIVE: AtomicUsize = AtomicUsize::new(0);
+
+/// (regions claimed, regions given up because blocks in them were still alive)
+pub fn region_stats() -> (usize, usize) {
+	(CLAIMED.load(Ordering::Relaxed), ABANDONED_LIVE.load(Ordering::Relaxed))
+}
+/// per region: blocks handed out minus blocks given back.  A region whose count
+/// is not zero when its owner wants to start over still has live blocks in it
+/// (a leak on purpose, or a cache the library keeps between calls): it is
+/// never reused.
+static LIVE: [std::sync::atomic::AtomicIsize; MAX_REGIONS] = [const { std::sync::atomic::AtomicIsize::new(0) }; MAX_REGIONS];
 /// set by the first allocation that goes through `QuarantineAlloc`: without it
 /// as the global allocator (fuzz targets) no arena is reserved at all
 static INSTALLED: AtomicUsize = AtomicUsize::new(0);
@@ -92,6 +104,7 @@ fn claim_slot() -> usize {
 	for k in 0..MAX_REGIONS {
 		let i = (start + k) % MAX_REGIONS;
 		if SLOTS[i].compare_exchange(0, 1, Ordering::AcqRel, Ordering::Relaxed).is_ok() {
+			CLAIMED.fetch_add(1, Ordering::Relaxed);
 			SLOT_HINT.store(i + 1, Ordering::Relaxed);
 			return a + i * REGION_SIZE;
 		}
@@ -105,8 +118,22 @@ fn release_slot(base: usize) {
 		return;
 	}
 	let i = (base - a) / REGION_SIZE;
-	if i < MAX_REGIONS {
+	if i < MAX_REGIONS && LIVE[i].load(Ordering::Relaxed) == 0 {
 		SLOTS[i].store(0, Ordering::Release);
+	}
+}
+
+#[inline]
+fn slot_of(p: usize) -> Option<usize> {
+	let a = ARENA.load(Ordering::Relaxed);
+	if a == 0 || a == usize::MAX || p < a {
+		return None;
+	}
+	let i = (p - a) / REGION_SIZE;
+	if i < MAX_REGIONS {
+		Some(i)
+	} else {
+		None
 	}
 }
 
@@ -132,6 +159,9 @@ unsafe fn bump_alloc(layout: Layout) -> *mut u8 {
 				return std::ptr::null_mut();
 			}
 			b.hi = p;
+			if let Some(i) = slot_of(p) {
+				LIVE[i].fetch_add(1, Ordering::Relaxed);
+			}
 			p as *mut u8
 		} else {
 			let p = (b.lo + align - 1) & !(align - 1);
@@ -139,6 +169,9 @@ unsafe fn bump_alloc(layout: Layout) -> *mut u8 {
 				return std::ptr::null_mut();
 			}
 			b.lo = p + layout.size();
+			if let Some(i) = slot_of(p) {
+				LIVE[i].fetch_add(1, Ordering::Relaxed);
+			}
 			p as *mut u8
 		}
 	})
@@ -169,7 +202,18 @@ pub fn my_region() -> usize {
 /// deterministically according to `layout`.  Without the quarantine allocator
 /// installed as the global allocator (fuzz targets) this is just `f()`.
 pub fn with_bump<T>(layout: &[u8], f: impl FnOnce() -> T) -> T {
-	let base = my_region();
+	let mut base = my_region();
+	// starting over in a region overwrites whatever the previous world left
+	// there: only if nothing of it is still alive
+	if base != 0 {
+		if let Some(i) = slot_of(base) {
+			if LIVE[i].load(Ordering::Relaxed) != 0 {
+				ABANDONED_LIVE.fetch_add(1, Ordering::Relaxed);
+				abandon_region();
+				base = my_region();
+			}
+		}
+	}
 	with_bump_at(base, layout, f)
 }
 
@@ -255,6 +299,11 @@ unsafe impl GlobalAlloc for QuarantineAlloc {
 			let new_layout = Layout::from_size_align_unchecked(new_size, layout.align());
 			let np = self.alloc(new_layout);
 			if !np.is_null() {
+				if let Some(i) = slot_of(ptr as usize) {
+					LIVE[i].fetch_sub(1, Ordering::Relaxed);
+				}
+			}
+			if !np.is_null() {
 				std::ptr::copy_nonoverlapping(ptr, np, layout.size().min(new_size));
 			}
 			return np;
@@ -263,6 +312,9 @@ unsafe impl GlobalAlloc for QuarantineAlloc {
 	}
 	unsafe fn dealloc(&self, ptr: *mut u8, layout: Layout) {
 		if in_region(ptr as usize) {
+			if let Some(i) = slot_of(ptr as usize) {
+				LIVE[i].fetch_sub(1, Ordering::Relaxed);
+			}
 			return;
 		}
 		let handled = Q
